@@ -13,7 +13,7 @@ META = {
     "bounds": {"quick": "from_textfile: <= 3 chunks with total <= 4 arbitrary characters, delimiter of 1 or 2 arbitrary characters "
                         "(all symbolic), an empty poll before any chunk (symbolic), from_end on/off; filenames: universe "
                         "of 3 names, any subset present at each of 3 polls",
-               "thorough": "total <= 6 characters, 4 polls for filenames"},
+               "thorough": "total <= 5 characters, 4 polls for filenames"},
     "outside": ["encodings / newline translation of real files", "directories", "files that shrink"],
     "stubs": ["file object: in-memory fake (read/seek)", "streamz.sources.glob -> symbolic listing",
               "event loop + clock: engine/vloop.py"],
@@ -195,7 +195,7 @@ def compositions(total, parts):
 def obligations(tier):
     q = tier == "quick"
     obls = []
-    tot = 4 if q else 6
+    tot = 4 if q else 5
     seen = set()
     for total in range(1, tot + 1):
         for nch in (1, 2, 3):
